@@ -66,20 +66,26 @@ TIERS = {
     # histories of length <= 3, larger alphabets
     'thorough': [
         ('cons', _c('cons', 1)),
-        ('keys-d2', _c('keys', 2)),
+        ('keys-d2', _c('keys', 2)),                 # the 18-key alphabet (adds false/0, float INF, 2, 'b')
         ('merge-d1', _c('merge', 1)),
         ('merge13-d2', _c('merge13', 2, lite=True)),
-        ('mapvals-d2', _c('mapvals', 2)),
-        ('arrays-d2', _c('arrays', 2)),
-        ('arrays2-d3', _c('arrays2', 3, lite=True)),
-        ('keys7-d3', _c('keys7', 3)),
+        ('mapvals-d2', _c('mapvals', 2, lite=True)),
+        ('arrays-d1', _c('arrays', 1)),
+        ('arrays-d2', _c('arrays', 2, lite=True)),
         ('deq-d1', _c('deq', 1)),
         ('mixed-d2-full', _c('mixed', 2)),
-        ('mixed-d3', _c('mixed', 3, lite=True)),
         ('mixed-d2-obs', _c('mixed', 2, lite=True, obs_terminal=False)),   # histories go on after observers
+        ('keys7-d3', _c('keys7', 3)),
+        ('arrays2-d3', _c('arrays2', 3, lite=True)),
+        ('mixed1-d3', _c('mixed1', 3, lite=True)),
     ],
 }
-NSEED = {'merge': 2, 'merge13': 2, 'deq': 2, 'mixed': 2, 'cons': 0}
+ALL_ACTIONS = [
+    'MapConsA', 'MapPut', 'MapRemove', 'MapGet', 'MapContains', 'MapSize', 'MapKeys', 'MapEntry', 'MapForEachA',
+    'MapFind', 'MapMerge', 'ArrConsSquare', 'ArrConsCurly', 'ArrGet', 'ArrPut', 'ArrAppend', 'ArrSubarray2',
+    'ArrSubarray3', 'ArrRemove', 'ArrInsertBefore', 'ArrHead', 'ArrTail', 'ArrReverse', 'ArrJoin', 'ArrFlatten',
+    'ArrForEach', 'ArrFilter', 'ArrFold', 'ArrSize', 'Lookup', 'DeepEqual']
+NSEED = {'merge': 2, 'merge13': 2, 'deq': 2, 'mixed': 2, 'mixed1': 2, 'cons': 0}
 
 # ---------------------------------------------------------------------------------------
 # abstract values (as parsed from TLC): atom {'a','x'}, map {'m': (entries {'k','v'})}, array {'r': (values)}
@@ -959,15 +965,20 @@ def second_oracle(src_store, action, args, dsts):
     return None
 
 
-def replay_component(init_sid):
+def replay_component(job):
+    """job = (init state, start state, history of the start state or None, root_only).
+    The walk starts at `start` (the initial state itself, or a state reached by the first operation whose
+    history was established by the root job) and covers everything below it; with root_only only the
+    edges of the start state are replayed and the states reached are handed back as new jobs."""
+    init_sid, start_sid, start_hist, root_only = job
     states, out = _G['states'], _G['out']
     nseed = _G['nseed']
     init_store = states[init_sid]['store']
     seeds = list(init_store[:nseed])
     fails: list[Fail] = []
-    stats = dict(groups=0, evals=0, edges=0, unreached=0, nontrivial=set(), oracle=[], samples=[])
-    hist = {init_sid: []}
-    queue = deque([init_sid])
+    stats = dict(groups=0, evals=0, edges=0, nontrivial=set(), oracle=[], samples=[], reached=[], children=[])
+    hist = {start_sid: list(start_hist or [])}
+    queue = deque([start_sid])
     bindings = []
     allkeys = keys_in(sum((tuple(x['v']) for x in seeds), ()), [])
     for binding in BINDINGS:
@@ -980,7 +991,9 @@ def replay_component(init_sid):
                 got = proj_value(real)
                 if canon_value(got) != canon_value(r['v']):
                     problem = ('value', got)
-        if problem:
+        if problem and start_sid != init_sid:
+            pass        # reported by the root job of this component
+        elif problem:
             src_abs = list(init_store)
             fails.append(Fail(dict(action='Seed', binding=binding, check='seed', outcome=problem[0], expected='value',
                                    **key_flags(allkeys)),
@@ -1045,19 +1058,12 @@ def replay_component(init_sid):
                 d = dsts[next(iter(chosen_all))]
                 if d not in hist:
                     hist[d] = hist[s] + [(action, args, dsts_abs[next(iter(chosen_all))][-1])]
-                    queue.append(d)
-    expandable = set()
-    seen = {init_sid}
-    q2 = deque([init_sid])
-    while q2:
-        s = q2.popleft()
-        for d, _, _ in out.get(s, ()):
-            if d not in seen:
-                seen.add(d)
-                q2.append(d)
-                if out.get(d):
-                    expandable.add(d)
-    stats['unreached'] = len([d for d in expandable if d not in hist])
+                    if root_only:
+                        if out.get(d):
+                            stats['children'].append((init_sid, d, hist[d], False))
+                    else:
+                        queue.append(d)
+    stats['reached'] = [d for d in hist if out.get(d)]
     stats['nontrivial'] = len(stats['nontrivial'])
     return fails, stats
 
@@ -1071,10 +1077,7 @@ def _plain(v):
 
 
 def _worker(chunk):
-    res = []
-    for sid in chunk:
-        res.append(replay_component(sid))
-    return res
+    return [replay_component(job) for job in chunk]
 
 
 # ---------------------------------------------------------------------------------------
@@ -1127,21 +1130,31 @@ def run_config(chk, name, consts, tlc=None):
     _G['states'], _G['out'] = g.states, out
     _G['nseed'] = NSEED.get(consts['Profile'], 1)
     acts = sorted({a for _, _, a, _ in g.edges})
-    chunks = core.chunked(sorted(g.init), max(1, min(len(g.init), 64)))
-    results = core.pool_map(_worker, chunks, procs=int(os.environ.get('VERIF_PROCS', '16')))
+    procs = int(os.environ.get('VERIF_PROCS', '16'))
+    inits = sorted(g.init)
+    split = len(inits) < 2 * procs          # few components: parallelise below the first operation
+    jobs = [(sid, sid, None, split) for sid in inits]
     n_fail = 0
-    tot = dict(groups=0, evals=0, edges=0, unreached=0, nontrivial=0)
+    tot = dict(groups=0, evals=0, edges=0, nontrivial=0)
     oracle = []
-    for res in results:
-        for fails, stats in res:
-            for k in tot:
-                tot[k] += stats[k]
-            oracle += stats['oracle']
-            for s in stats['samples']:
-                chk.sample(s, cap=16)
-            for f in fails:
-                n_fail += 1
-                chk.fail(f.features, f.case, f.expected, f.observed, f.what)
+    reached = set()
+    while jobs:
+        results = core.pool_map(_worker, core.chunked(jobs, max(1, min(len(jobs), 4 * procs))), procs=procs)
+        jobs = []
+        for res in results:
+            for fails, stats in res:
+                for k in tot:
+                    tot[k] += stats[k]
+                oracle += stats['oracle']
+                reached.update(stats['reached'])
+                jobs += stats['children']
+                for smp in stats['samples']:
+                    chk.sample(smp, cap=16)
+                for f in fails:
+                    n_fail += 1
+                    chk.fail(f.features, f.case, f.expected, f.observed, f.what)
+    expandable = {sid for sid in out if out[sid]}
+    tot['unreached'] = len(expandable - reached)
     if oracle:
         raise tla.MachineryError(f'spec/MapArray disagrees with the python list model: {oracle[:5]}')
     if tot['edges'] == 0:
@@ -1176,6 +1189,12 @@ def run(chk: core.Check) -> None:
         futs = [(name, consts, ex.submit(run_tlc_config, chk, name, consts)) for name, consts in TIERS[chk.tier]]
         for name, consts, fut in futs:
             run_config(chk, name, consts, tlc=fut.result())
+    # anti-vacuity: every action of MapArray!Next must have fired (and been replayed) in this tier
+    fired = {a for c in chk.coverage['configs'] for a in c['actions']}
+    missing = sorted(set(ALL_ACTIONS) - fired)
+    if missing:
+        raise tla.MachineryError(f'actions of MapArray that never fired in tier {chk.tier}: {missing}')
+    chk.coverage['actions_fired'] = len(fired)
     chk.coverage['exhaustive'] = True
     chk.coverage['rule'] = (
         'every edge of the TLC graphs of MapArray (history of map/array operations on a store of handles; seeds x '
